@@ -68,6 +68,16 @@ func (rl *Shell) Readline() (string, error) {
 	resize := display.WatchResize(rl.Display)
 	defer close(resize)
 
+	// If a command panics, the terminal cursor must still be left at the
+	// beginning of a new row below the input line, as for any other exit.
+	returned := false
+
+	defer func() {
+		if !returned {
+			rl.Display.AcceptLine()
+		}
+	}()
+
 	for {
 		// Whether or not the command is resolved, let the macro
 		// engine record the keys if currently recording a macro.
@@ -93,6 +103,8 @@ func (rl *Shell) Readline() (string, error) {
 		if err := core.InputError(rl.Keys); err != nil {
 			rl.Display.AcceptLine()
 
+			returned = true
+
 			return string(*rl.line), err
 		}
 
@@ -104,6 +116,8 @@ func (rl *Shell) Readline() (string, error) {
 
 		accepted, line, err := rl.run(false, bind, command)
 		if accepted {
+			returned = true
+
 			return line, err
 		} else if command != nil {
 			continue
@@ -123,6 +137,8 @@ func (rl *Shell) Readline() (string, error) {
 
 		accepted, line, err = rl.run(true, bind, command)
 		if accepted {
+			returned = true
+
 			return line, err
 		}
 
